@@ -109,3 +109,30 @@ def roundtrip_diff(case, rr, doc_regex=None, diff_regex=None, detab_equal=None):
     if detab_equal and not ("\t" in doc and regen.expandtabs(4) == doc.expandtabs(4)):
         return False
     return True
+
+
+@matcher
+def illformed_why(case, rr, why_regex=None, doc_regex=None):
+    import re
+
+    obs = rr.get("observed") or {}
+    if not obs.get("why") or not re.search(why_regex, obs["why"]):
+        return False
+    return not doc_regex or bool(re.search(doc_regex, obs.get("doc", ""), re.S))
+
+
+@matcher
+def position_why(case, rr, why_regex=None, doc_regex=None, token=None):
+    """every position violation of the replay has this shape"""
+    import re
+
+    obs = rr.get("observed") or {}
+    ps = obs.get("positions") or []
+    if not ps:
+        return False
+    for p in ps:
+        if not re.search(why_regex, p.get("why", "")):
+            return False
+        if token and p.get("token") != token:
+            return False
+    return not doc_regex or bool(re.search(doc_regex, obs.get("doc", ""), re.S))
